@@ -8,7 +8,8 @@ package app
 //@ func (*App).runTasks
 //@ props C09
 //@ requires a.Options != nil && runner != nil && TasksInv(spokfile) && I01(cp(spokfile)) && spokfile.Globs != nil && GlobsCurrent(spokfile)
-//@ modifies fexists, fdata, last, ranCount, dagV, dagE, dagItem, dagN, qpos, lastGraph, runPhase, mapOf(spokfile.Globs), lastResults
+//@ modifies fexists, fdata, last, ranCount, dagV, dagE, dagItem, dagN, qpos, lastGraph, runPhase, mapOf(spokfile.Globs), lastResults, fswrites
+//@ ensures [C19,writes-only-inside-the-cache-directory] forall p string :: {fswrites[p]} fswrites[p] && !old(fswrites)[p] ==> ancOrSelf(join2(spokfile.Dir, ".spok"), p)
 //@ at return Run#0: ghost lastResults = results
 //@ ensures [C09,failing-command-fails-action] result == nil ==> tasksOk(lastResults, len(lastResults))
 //@ ensures [C09,notcached] forall i int :: {lastResults[i]} result != nil && runPhase == 1 && 0 <= i && i < len(lastResults) && !lastResults[i].Skipped && !cmdsOk(lastResults[i].CommandResults, len(lastResults[i].CommandResults)) ==> diskGet(cp(spokfile), lastResults[i].Task) == "" && last[lastResults[i].Task] == ""
@@ -29,8 +30,9 @@ package app
 // clean: what is removed is designated by a declared output (or is the cache directory), is never the
 // spokfile, its directory or anything above it, and on success everything designated has been removed.
 //@ func (*App).clean
-//@ props C12
-//@ modifies removed, fexists, fdata
+//@ props C12 C19
+//@ modifies removed, fexists, fdata, fswrites
+//@ ensures [C19,clean-only-removes] forall p string :: {fswrites[p]} fswrites[p] && !old(fswrites)[p] ==> removed[p]
 //@ ensures [C12,only-designated-paths-removed] forall p string :: {removed[p]} removed[p] && !old(removed)[p] ==> Des(spokfile, p)
 //@ ensures [C12,never-the-spokfile-or-its-directory-or-above] forall p string :: {removed[p]} removed[p] && !old(removed)[p] ==> p != spokfile.Path && !ancOrSelf(p, spokfile.Dir)
 //@ ensures [C12,file-outputs-removed] result == nil ==> forall t string, k int :: {spokfile.Tasks[t].FileOutputs[k]} dom(spokfile.Tasks, t) && 0 <= k && k < len(spokfile.Tasks[t].FileOutputs) ==> removed[absOf(spokfile.Tasks[t].FileOutputs[k])]
@@ -38,20 +40,21 @@ package app
 //@ ensures [C12,glob-outputs-removed] result == nil ==> forall t string, k int, j int :: {globSpec(fsid, spokfile.Dir, spokfile.Tasks[t].GlobOutputs[k])[j]} dom(spokfile.Tasks, t) && 0 <= k && k < len(spokfile.Tasks[t].GlobOutputs) && 0 <= j && j < len(globSpec(fsid, spokfile.Dir, spokfile.Tasks[t].GlobOutputs[k])) ==> removed[globSpec(fsid, spokfile.Dir, spokfile.Tasks[t].GlobOutputs[k])[j]]
 //@ ensures [C12,cache-removed] result == nil ==> removed[join2(spokfile.Dir, ".spok")]
 //@ at call RemoveAll#0: ghost remIdx = store(remIdx, file, $i)
-//@ loop 0: invariant removed == old(removed) && AllDes(mapval(spokfile.Tasks), mapval(spokfile.Vars), spokfile.Dir, toRemove) && SeenBut(mapval(spokfile.Tasks), mapval(spokfile.Vars), spokfile.Dir, $seen, "", false, toRemove)
-//@ loop 1: invariant 0 <= $i && $i <= len(task.FileOutputs) && removed == old(removed) && dom(spokfile.Tasks, $key) && task == spokfile.Tasks[$key]
+//@ loop 0: invariant fswrites == old(fswrites) && removed == old(removed) && AllDes(mapval(spokfile.Tasks), mapval(spokfile.Vars), spokfile.Dir, toRemove) && SeenBut(mapval(spokfile.Tasks), mapval(spokfile.Vars), spokfile.Dir, $seen, "", false, toRemove)
+//@ loop 1: invariant fswrites == old(fswrites) && 0 <= $i && $i <= len(task.FileOutputs) && removed == old(removed) && dom(spokfile.Tasks, $key) && task == spokfile.Tasks[$key]
 //@ loop 1: invariant AllDes(mapval(spokfile.Tasks), mapval(spokfile.Vars), spokfile.Dir, toRemove) && SeenBut(mapval(spokfile.Tasks), mapval(spokfile.Vars), spokfile.Dir, $seen, $key, true, toRemove)
 //@ loop 1: invariant FileDone(task, $i, toRemove)
-//@ loop 2: invariant 0 <= $i && $i <= len(task.NamedOutputs) && removed == old(removed) && dom(spokfile.Tasks, $key) && task == spokfile.Tasks[$key]
+//@ loop 2: invariant fswrites == old(fswrites) && 0 <= $i && $i <= len(task.NamedOutputs) && removed == old(removed) && dom(spokfile.Tasks, $key) && task == spokfile.Tasks[$key]
 //@ loop 2: invariant AllDes(mapval(spokfile.Tasks), mapval(spokfile.Vars), spokfile.Dir, toRemove) && SeenBut(mapval(spokfile.Tasks), mapval(spokfile.Vars), spokfile.Dir, $seen, $key, true, toRemove)
 //@ loop 2: invariant FileDone(task, len(task.FileOutputs), toRemove) && NamedDone(mapval(spokfile.Vars), task, $i, toRemove)
-//@ loop 3: invariant 0 <= $i && $i <= len(task.GlobOutputs) && removed == old(removed) && dom(spokfile.Tasks, $key) && task == spokfile.Tasks[$key]
+//@ loop 3: invariant fswrites == old(fswrites) && 0 <= $i && $i <= len(task.GlobOutputs) && removed == old(removed) && dom(spokfile.Tasks, $key) && task == spokfile.Tasks[$key]
 //@ loop 3: invariant AllDes(mapval(spokfile.Tasks), mapval(spokfile.Vars), spokfile.Dir, toRemove) && SeenBut(mapval(spokfile.Tasks), mapval(spokfile.Vars), spokfile.Dir, $seen, $key, true, toRemove)
 //@ loop 3: invariant FileDone(task, len(task.FileOutputs), toRemove) && NamedDone(mapval(spokfile.Vars), task, len(task.NamedOutputs), toRemove) && GlobDone(spokfile.Dir, task, $i, toRemove)
-//@ loop 4: invariant 0 <= $i && $i <= len(toRemove) && removed == old(removed)
+//@ loop 4: invariant fswrites == old(fswrites) && 0 <= $i && $i <= len(toRemove) && removed == old(removed)
 //@ loop 4: invariant mapval(spokfile.Tasks) == mapval(spokfile.Tasks) && forall t string :: {dom(spokfile.Tasks, t)} dom(spokfile.Tasks, t) ==> TaskDone(mapval(spokfile.Vars), spokfile.Dir, spokfile.Tasks[t], toRemove)
 //@ loop 4: invariant forall j int :: {toRemove[j]} 0 <= j && j < $i ==> toRemove[j] != spokfile.Path && !ancOrSelf(toRemove[j], spokfile.Dir)
 //@ loop 5: invariant 0 <= $i && $i <= len(toRemove)
+//@ loop 5: invariant forall p string :: {fswrites[p]} fswrites[p] && !old(fswrites)[p] ==> removed[p]
 //@ loop 5: invariant mapval(spokfile.Tasks) == mapval(spokfile.Tasks) && forall t string :: {dom(spokfile.Tasks, t)} dom(spokfile.Tasks, t) ==> TaskDone(mapval(spokfile.Vars), spokfile.Dir, spokfile.Tasks[t], toRemove)
 //@ loop 5: invariant forall j int :: {toRemove[j]} 0 <= j && j < $i ==> removed[toRemove[j]]
 //@ loop 5: invariant forall p string :: {removed[p]} removed[p] && !old(removed)[p] ==> 0 <= remIdx[p] && remIdx[p] < $i && toRemove[remIdx[p]] == p
@@ -60,6 +63,6 @@ package app
 //@ func (*App).handleClean
 //@ props C12
 //@ requires a.Options != nil && runner != nil && TasksInv(spokfile) && I01(cp(spokfile)) && spokfile.Globs != nil && GlobsCurrent(spokfile)
-//@ modifies removed, fexists, fdata, last, ranCount, dagV, dagE, dagItem, dagN, qpos, lastGraph, runPhase, mapOf(spokfile.Globs), lastResults
+//@ modifies removed, fexists, fdata, last, ranCount, dagV, dagE, dagItem, dagN, qpos, lastGraph, runPhase, mapOf(spokfile.Globs), lastResults, fswrites
 //@ ensures [C12,user-clean-task-runs-instead] dom(spokfile.Tasks, "clean") ==> removed == old(removed)
 //@ ensures [C12,only-designated-paths-removed] forall p string :: {removed[p]} removed[p] && !old(removed)[p] ==> Des(spokfile, p) && p != spokfile.Path && !ancOrSelf(p, spokfile.Dir)
